@@ -12,9 +12,9 @@ import json, os, re
 import vcommon as V
 
 META = dict(
-    text="(filled in below)",
-    note="(filled in below)",
-    technique="Lean 4 proof over executable front-end and VM models with explicit panic-capable primitives + decide over a regenerated panic-site inventory + crash search through every script-facing entry point of the real code",
+    text="Lean 4 + regenerated inventory + crash search through every script-facing entry point. T1: on every run the extractor rebuilds from the Go source the set of functions reachable from EvalString/LoadString/LoadExpressions/Run/EvalExpressions/ParseTokens/ParsingIter/the REPL line reader/every SexpString method WITHOUT crossing a deferred recover(), with the index, slice, unchecked-type-assertion, explicit-panic, division and map-write operations each holds; `inventory_classified` (decide over the whole table) requires each to be classified as sites/behaviour/residual, so a new unrecovered function with a panic-capable operation breaks the proof; `stack_pushes_typed` fixes what is pushed on which VM stack. Proved for all inputs: the `{` look-ahead never indexes the token queue out of range (every parser state, distance, continuation); the index/slice expressions of dumpBuffer/DecodeAtom/DecodeChar are in range for every buffer; the panic-capable GenerateAssignment (ListToArray+panicOn) is reached from Generate's pair case by proper lists only (and a regenerated table fact pins the guard order in the source); the argument prologues of 21 special-form generators (incl. buildSexpFun) never index outside their argument list, for every argument list and any non-panicking sub-generator (Go int arithmetic modelled in Int, so args[size-1] with size=0 is a panic: pre-repair (and) and (mdef (hash) ..) are proved counterexamples); the VM's typed pops, call prologue, scope/stack-mark pops and symbol binding keep the stacks free of nil cells and do not panic on such stacks. T2: channel `crash` feeds the real EvalString(+SexpString), LoadString+Run, ParseTokens chunk API, EvalExpressions, macexpand, the REPL line reader in-process and the real Repl() in a child process with every string over a 26-symbol token alphabet up to length 4 (35 symbols to length 3), every sequence of up to 4 tokens from `a b 1 = := \\ ( ) [ ] ' : & *` inside ( ) [ ] { }, mutations of tests/*.zy, 43 statement forms inside 13 function shapes (tail calls, loops, package bodies), 51 data-not-code fillers (improper lists, assignments, infix blocks) in every position of 41 templates, every special form/reserved word/bound name of three configurations x 0..3 assorted arguments in 26 contexts, value pairs through binding/container/printing templates, infix token sequences and 380 regression texts; after every text the stack depths are recorded and a follow-up battery (def, defn+call, let, for, defmac+call, str of a hash) runs on the SAME interpreter, so a text that silently corrupts a long-lived interpreter is exposed; any Go panic, nil value with nil error or process death is a failing input with replay. The Lean front-end model is compared on the status of every ParseTokens call (hash per enumeration range), the prologue model on which argument lists LoadString must refuse, the VM model on the outcome class of every `eval` text. A unit test feeds a few dozen malformed inputs; the theorems cover every input of the modelled sites and the table covers every function of the current tree.",
+    note="Partial. Proved on site models, not on a translation of the Go code: Model/GenSites, Model/FrontSites and the parser's peekAt are hand-written after the code and tied behaviourally (P: and G: columns, crash search). The full VM statement C01NoPanic is stated, not proved: missing are the induction over the mutually recursive interpreter functions and the stack balance of generated code (restoreControlState only truncates, binds never meet an empty scope stack) — `restore_can_pad` shows the latent TruncateToSize padding path; both are held by the eval/crash correspondence. 67 functions of the unrecovered region are residual (printing of exotic values, hash/selector helpers, REPL glue, syntax-quote generators): crash search only. Runtime resources are outside the claim: Go stack exhaustion (infinite macro expansion, a self-containing value given to ==/json/Type(), deep non-tail recursion) kills the process and cannot be recovered; the harness bounds each text by a 20000-call budget and a 2 s watchdog and classifies what does not return as `hang` without reporting it. Names that reach outside the process are on a deny list and are never executed. Trusted: Lean kernel (propext, Classical.choice, Quot.sound), the extractor's call graph (calls only; function values by signature), harness, driver.",
+    technique="Lean 4 proof over executable front-end, generator-prologue and VM-primitive models with explicit panic-capable primitives + decide over a regenerated panic-site inventory + crash search through every script-facing entry point of the real code",
     design_ref="DESIGN.md §7 C01, §13",
 )
 
@@ -68,10 +68,16 @@ def judge_crash(rows, stats):
             out.append((op, "hang", "hang", "-"))
             continue
         for f in impl.split(" "):
-            if len(f) > 2 and f[1] == ":" and f[0] in "ELXMR":
+            if len(f) > 2 and f[1] == ":" and f[0] in "EFXMR":
                 c = f.split(":")[1]
                 st["classes"][f[0] + ":" + c] = st["classes"].get(f[0] + ":" + c, 0) + 1
         bad = BAD.search(impl) is not None
+        dfield = field(impl, "D:")
+        if dfield not in ("", "D:-", "D:0,1,0,0"):
+            # a text that came back but left a stack off its rest depth (C04's subject; here it is
+            # the earliest witness when the follow-up battery then fails)
+            key = "off_rest_after_" + field(impl, "E:")[2:]
+            st[key] = st.get(key, 0) + 1
         if kind == "e":
             bad = bad or not impl.endswith(" F=-")
             i_cmp = " ".join(impl.split(" ")[:2])      # n=… h=…
@@ -81,10 +87,13 @@ def judge_crash(rows, stats):
             # generator prologues: what the model refuses, LoadString must refuse
             i_cmp = field(impl, "P:")
             m_cmp = field(model, "P:")
+            if m_cmp == "P:*":          # text too long for the model's parser (see Driver/Crash.lean)
+                m_cmp = i_cmp
+                st["p_not_modelled_long_text"] = st.get("p_not_modelled_long_text", 0) + 1
             g = field(model, "G:")
             if g == "G:err":
-                i_cmp += " " + field(impl, "L:")
-                m_cmp += " L:cerr"
+                i_cmp += " " + field(impl, "E:")
+                m_cmp += " E:cerr"
                 st["prologue_refused"] = st.get("prologue_refused", 0) + 1
             elif g == "G:ok":
                 st["prologue_accepted"] = st.get("prologue_accepted", 0) + 1
@@ -113,32 +122,32 @@ def split_enum(rep, op, impl):
 
 
 def shrink_repl(op, impl):
-    """a REPL batch that killed the child: find a single line (or the shortest prefix) that does"""
+    """a REPL batch that killed the child: the first single line that does it alone, else the
+    shortest prefix of the batch that does"""
     t = op.split(" ")
-    d = decode_op(op)
-    lines = d.get("text", "").split("\n")
-    def dies(ls):
+    lines = decode_op(op).get("text", "").split("\n")
+    def run(ls):
         o = "crash r %s %s" % (t[2], ".".join(str(ord(c)) for c in "\n".join(ls)) or "-")
         a = V.exec_impl(o + "\n", timeout=120)
-        return a and BAD.search(a[0]) is not None, o, (a[0] if a else "")
+        ans = a[0] if a else ""
+        return BAD.search(ans) is not None, o, ans
     for l in lines:
-        bad, o, a = dies([l])
+        bad, o, a = run([l])
         if bad:
             return o, a
-    lo = lines
-    while len(lo) > 1:
-        half = lo[:len(lo) // 2]
-        bad, o, a = dies(half)
-        lo = half if bad else lo[:len(lo) // 2 + (len(lo) - len(lo) // 2 + 1) // 2] if len(lo) > 2 else lo
-        if not bad:
-            break
+    for n in range(2, len(lines)):
+        bad, o, a = run(lines[:n])
+        if bad:
+            return o, a
     return op, impl
 
 
 def judge_eval(rows):
-    """channel eval, read for C01: the class column only. impl class `panic` (or a host
-    panic/death) is a failing input; a class that differs from the VM model's is a
-    correspondence break."""
+    """channel eval, read for C01: per text of the history only "is the outcome a host panic".
+    An implementation panic (or host death) is a failing input; a panic predicted by the VM
+    model that the implementation does not show (or the reverse, caught by the first rule) is a
+    correspondence break. Differences between ok and err are C02's business (its own check
+    compares the full records)."""
     out = []
     for op, impl, model, spec in rows:
         icls = [r.split(" ")[0] for r in impl.split(" ;; ")]
@@ -147,11 +156,71 @@ def judge_eval(rows):
             out.append((op, impl, model, "every text evaluates to a value or an error"))
         elif impl == "hang" or "timeout" in icls or "timeout" in mcls:
             out.append((op, "nonterminating", "nonterminating", "-"))
-        elif icls != mcls:
-            out.append((op, " ".join(icls), " ".join(mcls), "-"))
+        elif "panic" in mcls:
+            out.append((op, "no-panic: " + " ".join(icls), "panic predicted: " + " ".join(mcls), "-"))
         else:
-            out.append((op, " ".join(icls), " ".join(icls), " ".join(icls)))
+            out.append((op, "no-panic", "no-panic", "no-panic"))
     return out
+
+
+def inventory_by_cover():
+    """joins the regenerated table (Generated/PanicSites.lean) with the committed classification
+    (Props/C01.lean `Classified`): site counts per cover class, and the residual functions with
+    their counts"""
+    gen = open(os.path.join(V.LEAN, "ZygoVerif", "Generated", "PanicSites.lean")).read()
+    props = open(os.path.join(V.LEAN, "ZygoVerif", "Props", "C01.lean")).read()
+    cover = dict(re.findall(r'\("([^"]+)", \.(\w+)\)', props))
+    kinds = ["index", "slice", "assert", "explicit", "div", "mapwrite"]
+    out = {"sites": {"functions": 0}, "behaviour": {"functions": 0}, "residual": {"functions": 0}, "unclassified": {"functions": 0}}
+    residual = {}
+    for m in re.finditer(r'⟨"([^"]+)", "([^"]+)", (\d+), (\d+), (\d+), (\d+), (\d+), (\d+)⟩', gen):
+        name, counts = m.group(1), [int(x) for x in m.groups()[2:]]
+        c = cover.get(name, "unclassified")
+        out[c]["functions"] += 1
+        for k, n in zip(kinds, counts):
+            out[c][k] = out[c].get(k, 0) + n
+        if c in ("residual", "unclassified"):
+            residual[name] = {k: n for k, n in zip(kinds, counts) if n}
+    out["residual_functions"] = residual
+    return out
+
+
+def run_channel_parallel(channel, seed, tier, timeout=6000):
+    """vcommon.run_channel with the two sides running at the same time: the real code through
+    `zyh exec` (process isolation, restarts) and the Lean model through `zydrv`."""
+    import concurrent.futures, subprocess
+    env = V.goenv()
+    statf = os.path.join(V.BUILD, "%s.%d.stats" % (channel, os.getpid()))
+    rc, out = V.sh([V.ZYH, "gen", channel, "-seed", str(seed), "-tier", tier, "-stats", statf], env=env, timeout=timeout)
+    if rc != 0:
+        raise RuntimeError("zyh gen %s failed: %s" % (channel, out[-2000:]))
+    ops = [l for l in out.split("\n") if l]
+    stats = {}
+    try:
+        with open(statf) as f:
+            for l in f:
+                k, _, v = l.rstrip("\n").rpartition(" ")
+                stats[k] = int(v)
+        os.remove(statf)
+    except FileNotFoundError:
+        pass
+    text = "\n".join(ops) + "\n" if ops else ""
+    def model():
+        p = subprocess.run([V.ZYDRV], input=text, stdout=subprocess.PIPE, stderr=subprocess.STDOUT, text=True, timeout=timeout)
+        if p.returncode != 0:
+            raise RuntimeError("zydrv failed: %s" % p.stdout[-2000:])
+        return p.stdout.split("\n")[:len(ops)]
+    with concurrent.futures.ThreadPoolExecutor(max_workers=2) as ex:
+        fm = ex.submit(model)
+        impl = V.exec_impl(text, timeout)
+        mlines = fm.result()
+    if len(mlines) != len(ops):
+        raise RuntimeError("zydrv answered %d lines for %d ops" % (len(mlines), len(ops)))
+    rows = []
+    for op, i, m in zip(ops, impl, mlines):
+        mm, _, ss = m.partition("\t")
+        rows.append((op, i, mm, ss))
+    return rows, stats
 
 
 def load_known(rep):
@@ -169,13 +238,20 @@ def load_known(rep):
 
 def run(rep):
     load_known(rep)
+    import time
+    t0 = time.time()
+    phases = {}
     prep = V.prepare(["ZygoVerif.Props.C01"])
+    phases["build_s"] = round(time.time() - t0, 1)
     V.lean_phase(rep, prep, "ZygoVerif.Props.C01")
+    phases["lean_audit_s"] = round(time.time() - t0 - phases["build_s"], 1)
+    rep.coverage["phases"] = phases
     try:
         with open(os.path.join(V.BUILD, "facts.json")) as f:
             facts = json.load(f)
         if "panicsites" in facts:
             rep.coverage["inventory"] = facts["panicsites"]
+        rep.coverage["inventory_by_cover"] = inventory_by_cover()
     except Exception:
         pass
     if not (prep["ok_drv"] and prep["ok_harness"]):
@@ -184,7 +260,9 @@ def run(rep):
         return
     found = False
     os.environ.setdefault("VERIF_REPO", V.REPO)
-    rows, stats = V.run_channel("crash", rep.seed, rep.tier, timeout=6000)
+    t1 = time.time()
+    rows, stats = run_channel_parallel("crash", rep.seed, rep.tier)
+    phases["crash_run_s"] = round(time.time() - t1, 1)
     # enumeration ranges / REPL batches with failures are re-run as single-text ops
     extra = []
     for op, impl, model, spec in rows:
@@ -207,7 +285,10 @@ def run(rep):
     rep.coverage["channels"]["crash"].update(jst)
     found = found or bool(bad_spec)
     # outcome class of implementation vs VM model on the modelled core
+    phases["crash_total_s"] = round(time.time() - t1, 1)
+    t2 = time.time()
     rows, stats = V.run_channel("eval", rep.seed, rep.tier)
+    phases["eval_run_s"] = round(time.time() - t2, 1)
     bs, bm = V.correspondence(rep, "eval", judge_eval(rows), stats,
                               nontrivial=lambda op, impl: "ok" in impl)
     found = found or bool(bs)
